@@ -94,8 +94,8 @@ namespace TR
       std::string problems;
    };
 
-   template< template< typename... > class Act, template< typename... > class Ctl >
-   TreeResult run_tree_act( const Cfg& c, In& in, long fuel_limit )
+   template< template< typename... > class Act, template< typename... > class Ctl, typename... St >
+   TreeResult run_tree_act( const Cfg& c, In& in, long fuel_limit, St&... st )
    {
       TreeResult t;
       Real& r = t.r;
@@ -104,7 +104,7 @@ namespace TR
       top_A = 1;
       L.reset();
       try {
-         auto root = p::parse_tree::parse< node< 0 >, sel, Act, Ctl >( in );
+         auto root = p::parse_tree::parse< node< 0 >, sel, Act, Ctl >( in, st... );
          r.kind = root ? Real::OK : Real::FAILED;
          r.pos = int( in.current() - g_begin );
          if( root ) {
@@ -152,7 +152,15 @@ namespace TR
    {
 #if TREE_SEL == 0
       if( c.ctl == 6 ) return run_tree_act< p::nothing, plain_errA >( c, in, fuel_limit );
+      if( c.ctl == 7 ) return run_tree_act< p::nothing, plain_errB >( c, in, fuel_limit );  // n2 raises on failure: reachable below a try_catch with three rules
 #endif
+      if( c.ctl == 1 ) {
+         // one user state handed to parse_tree::parse (selectors' transformers, node hooks and the user control all receive it):
+         // the tree must not depend on it
+         int user_state = 0;
+         if( c.fam == 0 ) return run_tree_act< p::nothing, mon >( c, in, fuel_limit, user_state );
+         return run_tree_act< act_apply, mon >( c, in, fuel_limit, user_state );
+      }
       if( c.fam == 0 ) return run_tree_act< p::nothing, mon_fix >( c, in, fuel_limit );
       if( c.fam == 5 ) return run_tree_act< act_bool, mon_fix >( c, in, fuel_limit );  // vetoing actions: a vetoed match must leave no node
       if( c.fam == 6 ) return run_tree_act< act_bool0, mon_fix >( c, in, fuel_limit );  // the same through apply0 (the tree's control adaptor must hand the result on)
